@@ -426,6 +426,12 @@ impl World {
             }
         }
         let is_reply = !matches!(msg, Msg::Syn { .. });
+        if is_reply {
+            self.stats.max("max_reply_len", bytes.len() as u64);
+            if bytes.len() + 16 > codec::MAX_DATAGRAM {
+                self.stats.inc("probe_reply_within_16_of_limit");
+            }
+        }
         if bytes.len() > codec::MAX_DATAGRAM {
             self.stats.inc("fault_oversize_refused");
             if is_reply && self.on("C07") {
